@@ -77,6 +77,13 @@ def cases(tier, seed):
                                     continue
                                 out.append({"family": "fit", "shape": list(shape), "N": N, "mask": mask, "nc": nc, "data": dc,
                                             "rows": list(comp), "spatial": sp, "seed": seed})
+    # image stacks of other dtypes (raw integer voxels, float64) with every mask kind: the mask keeps its own precision
+    for dt in ("int16", "uint8", "float64"):
+        for mask in ("none", "binary", "soft"):
+            for shape in ((3, 2, 2), (4, 4, 4)):
+                for N in (4, 6):
+                    out.append({"family": "fit", "shape": list(shape), "N": N, "mask": mask, "nc": 2, "data": "lowrank", "rows": [N], "spatial": "none", "seed": seed, "dtype": dt})
+                    out.append({"family": "fit", "shape": list(shape), "N": N, "mask": mask, "nc": 2, "data": "fullrank", "rows": [2, N - 2], "spatial": "none", "seed": seed, "dtype": dt})
     for N in (4, 5):
         for pat in itertools.product((0, 1), repeat=N):
             if len(set(pat)) < 2:
@@ -116,7 +123,11 @@ def _stack(case):
         X = coef @ basis + 0.05 * rng.standard_normal((N, nf)) + 2.0
     else:
         X = rng.standard_normal((N, nf)) * np.linspace(1.5, 0.5, nf) + 1.0
-    return X.reshape((N,) + shape).astype(np.float32)
+    X = X.reshape((N,) + shape)
+    dt = case.get("dtype", "float32")
+    if "int" in dt:
+        X = np.round((X - X.min()) / (X.max() - X.min()) * (200 if dt == "uint8" else 3000))
+    return X.astype(dt)
 
 
 def run_case(case):
